@@ -219,7 +219,7 @@ func isMutating(call string) bool {
 
 // whole reads the file through the schema reader over the store.
 func whole(w *world, fileRank int, want []byte) gate.Event {
-	ev := gate.Event{"ev": "op", "op": "whole", "b": fileRank, "size": 0, "list": []any{}, "needs": needsOf[fileRank]}
+	ev := gate.Event{"ev": "op", "op": "whole", "b": fileRank, "size": 0, "list": []any{}, "needs": needsOf[fileRank], "wholeref": false}
 	fr, err := schema.NewFileReader(context.Background(), w.sys.Sto, w.r.U.ByRank(fileRank).Ref)
 	if err != nil {
 		ev["res"] = drv.Classify(err)
@@ -510,12 +510,28 @@ func laterOps(w *world, u *univ.Universe, emit func(gate.Event), files map[int][
 
 func crashRun(sc *scenario, u *univ.Universe, order []blob.Ref, files map[int][]byte, fileIdx, k int, call, variant string,
 	head []gate.Event, scratch string) error {
+	if err := crashRun1(sc, u, order, files, fileIdx, k, call, variant, false, head, scratch); err != nil {
+		return err
+	}
+	if fileIdx < len(order)-1 {
+		// the client uploads the blobs after the interrupted one first and retries the interrupted one last (another
+		// file with the same content is then packed while the first pack is still half-recorded)
+		return crashRun1(sc, u, order, files, fileIdx, k, call, variant, true, head, scratch)
+	}
+	return nil
+}
+
+func crashRun1(sc *scenario, u *univ.Universe, order []blob.Ref, files map[int][]byte, fileIdx, k int, call, variant string, retryLast bool,
+	head []gate.Event, scratch string) error {
 	w, err := newWorld(u, nil, sc.MaxZip, 0, scratch)
 	if err != nil {
 		return err
 	}
 	evs := cloneEvents(head)
 	cls := fmt.Sprintf("%s:%s", strings.TrimPrefix(call, "r"), variant)
+	if retryLast {
+		cls += "+retry-last"
+	}
 	evs[0]["crash"] = map[string]any{"class": cls, "k": k, "file": fileIdx}
 	for i := 0; i < fileIdx; i++ {
 		evs = append(evs, w.r.Do(drv.Op{Op: "receive", B: u.RankOf(order[i])}))
@@ -555,9 +571,33 @@ func crashRun(sc *scenario, u *univ.Universe, order []blob.Ref, files map[int][]
 		observe(w2, emit, files)
 		// the client retries the interrupted upload and uploads the remaining blobs
 		for i := fileIdx; i < len(order); i++ {
+			if retryLast && i == fileIdx {
+				continue
+			}
 			emit(w2.r.Do(drv.Op{Op: "receive", B: u.RankOf(order[i])}))
 		}
+		if retryLast {
+			emit(w2.r.Do(drv.Op{Op: "receive", B: u.RankOf(order[fileIdx])}))
+		}
 		observe(w2, emit, files)
+		// a second restart with an index rebuild, now that the interrupted upload was retried (an interrupted pack
+		// followed by a retry can leave more than one zip for the same file): nothing may change
+		if dur3, err := w2.dur.Clone(); err == nil {
+			again := 2 // full rebuild, except after a full rebuild: fast
+			if mode == 2 {
+				again = 1
+			}
+			w3, err := newWorld(u, dur3, sc.MaxZip, again, scratch)
+			if err != nil {
+				emit(gate.Event{"ev": "recover", "res": "failed", "side": true, "what": []string{"none", "fast", "full"}[again], "detail": err.Error()})
+			} else {
+				emit(gate.Event{"ev": "recover", "res": "ok", "side": true, "what": []string{"none", "fast", "full"}[again]})
+				observe(w3, emit, files)
+				w3.sys.Close()
+			}
+		} else {
+			return err
+		}
 		laterOps(w2, u, emit, files, order)
 		emitAll(seg)
 		nClass["crash/"+cls+"/"+name]++
